@@ -9,6 +9,7 @@ package main
 import (
 	"fmt"
 	"go/token"
+	"sort"
 	"strings"
 
 	"golang.org/x/tools/go/ssa"
@@ -64,55 +65,158 @@ func c10R4(c *Ctx) {
 
 // ---------------------------------------------------------------- R1
 
-var c10Inventory = []InvLine{
-	{Fn: "~/content/oci.ensureDir", Callee: "os.MkdirAll", Role: "directory creation (idempotent; an empty directory is a valid layout state)"},
-	{Fn: "(*~/content/oci.Store).ensureOCILayoutFile", Callee: "os.WriteFile", Role: "creates oci-layout when it does not exist (initialisation, see R2)"},
-	{Fn: "(*~/content/oci.Store).ensureOCILayoutFile", Callee: "(*os.File).Close", Role: "closes the read-only handle of oci-layout"},
-	{Fn: "(*~/content/oci.Store).loadIndexFile", Callee: "(*os.File).Close", Role: "closes the read-only handle of index.json"},
-	{Fn: "(*~/content/oci.Store).writeIndexFile", Callee: "os.WriteFile", Role: "writes index.json (see R2: in place — known finding D5)"},
-	// shape of the D5 repair (sibling temporary file renamed over index.json); R2 checks source and target of the rename
-	{Fn: "(*~/content/oci.Store).writeIndexFile", Callee: "os.CreateTemp", Role: "temporary sibling of index.json (replace-by-rename)"},
-	{Fn: "(*~/content/oci.Store).writeIndexFile", Callee: "(*os.File).Write", Role: "writes the temporary sibling"},
-	{Fn: "(*~/content/oci.Store).writeIndexFile", Callee: "(*os.File).Sync", Role: "flushes the temporary sibling"},
-	{Fn: "(*~/content/oci.Store).writeIndexFile", Callee: "(*os.File).Close", Role: "closes the temporary sibling"},
-	{Fn: "(*~/content/oci.Store).writeIndexFile", Callee: "(*os.File).Chmod", Role: "mode of the temporary sibling"},
-	{Fn: "(*~/content/oci.Store).writeIndexFile", Callee: "os.Chmod", Role: "mode of the temporary sibling"},
-	{Fn: "(*~/content/oci.Store).writeIndexFile", Callee: "os.Remove", Role: "cleanup of the temporary sibling (R2: never index.json itself)"},
-	{Fn: "(*~/content/oci.Store).writeIndexFile", Callee: "os.Rename", Role: "atomic replacement of index.json (R2)"},
-	{Fn: "(*~/content/oci.Storage).Push", Callee: "os.Rename", Role: "publication: verified ingest file -> blobs/<alg>/<hex>", Required: true},
-	{Fn: "(*~/content/oci.Storage).Push", Callee: "os.Remove", Role: "cleanup of the ingest file when the rename failed"},
-	{Fn: "(*~/content/oci.Storage).Delete", Callee: "os.Remove", Role: "removal of one blob", Required: true},
-	{Fn: "(*~/content/oci.Storage).ingest", Callee: "os.CreateTemp", Role: "temporary ingest file, outside blobs/", Required: true},
-	{Fn: "(*~/content/oci.Storage).ingest", Callee: "os.Chmod", Role: "read-only mode on the ingest file (not needed for crash safety)"},
-	{Fn: "(*~/content/oci.Storage).ingest$1", Callee: "(*os.File).Close", Role: "closes the ingest file"},
-	{Fn: "(*~/content/oci.Storage).ingest$1", Callee: "os.Remove", Role: "cleanup of the ingest file on failure"},
-	{Fn: "(*~/content/oci.Store).GC", Callee: "os.Remove", Role: "sweep of unreachable blobs", Required: true},
+// The inventory is keyed by the exported operation from which the effect is
+// reached (through unexported helpers and closures) and the resolved callee —
+// not by the unexported function that happens to contain the call, so moving
+// an effect into a helper does not change its key while a new effect of an
+// operation still does.  Effects issued by the function that writes
+// s.indexPath (role, not name) carry the prefix "index:".
+const (
+	c10opNew     = "~/content/oci.NewWithContext"
+	c10opSPush   = "(*~/content/oci.Storage).Push"
+	c10opSDelete = "(*~/content/oci.Storage).Delete"
+	c10opGC      = "(*~/content/oci.Store).GC"
+)
+
+var c10IndexOps = []string{c10opNew, "(*~/content/oci.Store).Push", "(*~/content/oci.Store).Tag", "(*~/content/oci.Store).Untag",
+	"(*~/content/oci.Store).Delete", "(*~/content/oci.Store).SaveIndex", c10opGC}
+
+func c10InventoryTable() []InvLine {
+	t := []InvLine{
+		{Fn: c10opNew, Callee: "os.MkdirAll", Role: "creates blobs/ (idempotent; an empty directory is a valid layout state)"},
+		{Fn: c10opNew, Callee: "os.WriteFile", Role: "creates oci-layout when it does not exist (initialisation, see R2)"},
+		{Fn: c10opNew, Callee: "(*os.File).Close", Role: "closes the read-only handles of oci-layout / index.json"},
+		{Fn: c10opSPush, Callee: "os.MkdirAll", Role: "creates the ingest and blobs/<alg> directories"},
+		{Fn: c10opSPush, Callee: "os.CreateTemp", Role: "temporary ingest file, outside blobs/", Required: true},
+		{Fn: c10opSPush, Callee: "os.Chmod", Role: "read-only mode on the ingest file (not needed for crash safety)"},
+		{Fn: c10opSPush, Callee: "(*os.File).Close", Role: "closes the ingest file"},
+		{Fn: c10opSPush, Callee: "os.Remove", Role: "cleanup of the ingest file on failure"},
+		{Fn: c10opSPush, Callee: "os.Rename", Role: "publication: verified ingest file -> blobs/<alg>/<hex>", Required: true},
+		{Fn: c10opSDelete, Callee: "os.Remove", Role: "removal of one blob", Required: true},
+		{Fn: c10opGC, Callee: "os.Remove", Role: "sweep of unreachable blobs", Required: true},
+	}
+	for _, op := range c10IndexOps {
+		t = append(t, InvLine{Fn: op, Callee: "index:os.WriteFile", Role: "writes index.json (see R2: in place — known finding D5)"})
+		// shape of the D5 repair (sibling temporary file renamed over index.json); R2 checks source and target of the rename
+		for _, callee := range []string{"os.CreateTemp", "(*os.File).Write", "(*os.File).WriteString", "(*os.File).Sync", "(*os.File).Close", "(*os.File).Chmod", "os.Chmod", "os.Remove", "os.Rename"} {
+			t = append(t, InvLine{Fn: op, Callee: "index:" + callee, Role: "replace-by-rename of index.json through a temporary sibling (R2)"})
+		}
+	}
+	return t
+}
+
+// c10Operations: the exported functions / methods of the package from which f
+// is reached through unexported helpers, closures and deferred calls (f itself
+// when it is exported).  An unexported function nobody calls is its own key.
+func c10Operations(p *Prog, f *ssa.Function) []*ssa.Function {
+	isOp := func(g *ssa.Function) bool {
+		return g.Parent() == nil && g.Object() != nil && g.Object().Exported()
+	}
+	callers := map[*ssa.Function][]*ssa.Function{}
+	for g := range p.All {
+		if fnPkgPath(g) != fnPkgPath(f) || len(g.Blocks) == 0 || (g.Synthetic != "" && !strings.HasPrefix(g.Synthetic, "instance of")) {
+			continue
+		}
+		AllInstrs(g, func(in ssa.Instruction) {
+			switch x := in.(type) {
+			case *ssa.MakeClosure:
+				callers[x.Fn.(*ssa.Function)] = append(callers[x.Fn.(*ssa.Function)], g)
+			case ssa.CallInstruction:
+				if h := StaticCallee(x); h != nil {
+					callers[h] = append(callers[h], g)
+				}
+				for _, a := range x.Common().Args {
+					if h, ok := a.(*ssa.Function); ok {
+						callers[h] = append(callers[h], g)
+					}
+				}
+			}
+		})
+	}
+	seen := map[*ssa.Function]bool{}
+	ops := map[*ssa.Function]bool{}
+	var up func(g *ssa.Function, d int)
+	up = func(g *ssa.Function, d int) {
+		if seen[g] {
+			return
+		}
+		seen[g] = true
+		if isOp(g) {
+			ops[g] = true
+			return
+		}
+		if d == 0 || len(callers[g]) == 0 {
+			if g == f || len(callers[g]) == 0 {
+				ops[g] = true
+			}
+			return
+		}
+		for _, cg := range callers[g] {
+			up(cg, d-1)
+		}
+	}
+	up(f, 5)
+	var out []*ssa.Function
+	for g := range ops {
+		out = append(out, g)
+	}
+	sort.Slice(out, func(i, j int) bool { return out[i].String() < out[j].String() })
+	return out
 }
 
 func c10R1(c *Ctx) {
 	const R1 = "C10.R1.fs-effect-inventory"
-	c.Expect(R1, 13)
+	c.Expect(R1, 18)
 	fns := c.P.FuncsOfPkg(c08Pkg)
 	if len(fns) == 0 {
 		c.LostAnchor(R1, "package ~/content/oci")
 		return
 	}
-	sites := Inventory(fns, func(n string) bool { return fsMutators[n] })
-	CheckInventory(c, R1, sites, c10Inventory)
-	// cleanup sites may only remove the ingest file, never the published blob
-	for _, s := range sites {
-		if s.Callee != "os.Remove" {
-			continue
+	r := c08FindRoles(c, R1)
+	if r == nil {
+		return
+	}
+	raw := Inventory(fns, func(n string) bool { return fsMutators[n] })
+	var sites []EffectSite
+	opsOf := map[*ssa.Function][]*ssa.Function{}
+	for _, s := range raw {
+		if _, done := opsOf[s.Fn]; !done {
+			opsOf[s.Fn] = c10Operations(c.P, s.Fn)
 		}
-		fn := FnName(s.Fn)
-		switch fn {
-		case "(*~/content/oci.Storage).Push":
-			var ing ssa.Value
-			for _, ic := range c10IngestCalls(s.Fn) {
-				ing = ResultOf(ic, 0)
+		callee := s.Callee
+		host := s.Fn
+		for host.Parent() != nil {
+			host = host.Parent()
+		}
+		if r.indexWriter[host] {
+			callee = "index:" + callee
+		}
+		for _, op := range opsOf[s.Fn] {
+			sites = append(sites, EffectSite{Fn: op, Call: s.Call, Callee: callee})
+		}
+	}
+	CheckInventory(c, R1, sites, c10InventoryTable())
+	// cleanup around the publication may only remove the ingest file, never the published blob
+	if push := c.P.Fn(c08Pkg, "Storage.Push"); push != nil {
+		var ing ssa.Value
+		var ingest *ssa.Function
+		for _, ic := range c10IngestCalls(push) {
+			ing, ingest = ResultOf(ic, 0), StaticCallee(ic)
+		}
+		for _, host := range c09ReachableInPkg(push, 2) {
+			if host == ingest || (ingest != nil && host.Parent() == ingest) || len(CallsTo(host, "os.Rename")) == 0 {
+				continue
 			}
-			ok := ing != nil && c09SameKey(s.Call.Common().Args[0], ing)
-			c.Check(R1, fn+"|os.Remove|removes-only-the-ingest-file", s.Call.Pos(), ok, ifelse(ok, "the cleanup removes the path returned by ingest", "the cleanup in Push removes something else than the ingest file"))
+			for _, rmc := range CallsTo(host, "os.Remove") {
+				vals, okO := c09Origins(c.P, rmc.Common().Args[0], 2, push)
+				ok := ing != nil && okO && len(vals) > 0
+				for _, v := range vals {
+					if ing == nil || !c09SameKey(v, ing) {
+						ok = false
+					}
+				}
+				c.Check(R1, c10opSPush+"|os.Remove|removes-only-the-ingest-file", rmc.Pos(), ok, ifelse(ok, "the cleanup removes the path returned by ingest", "the cleanup in Push removes something else than the ingest file"))
+			}
 		}
 	}
 }
@@ -121,7 +225,8 @@ func c10R1(c *Ctx) {
 func c10IngestCalls(push *ssa.Function) []ssa.CallInstruction {
 	var out []ssa.CallInstruction
 	for _, call := range Calls(push, func(string) bool { return true }) {
-		if g := StaticCallee(call); g != nil && inModule(g) && len(CallsTo(g, "os.CreateTemp")) > 0 {
+		if g := StaticCallee(call); g != nil && g != push && inModule(g) && ErrResultIndex(g.Signature) >= 0 &&
+			reachesCall(g, 1, func(n string, _ ssa.CallInstruction) bool { return n == "os.CreateTemp" }) {
 			out = append(out, call)
 		}
 	}
@@ -295,44 +400,86 @@ func c10R3StoragePush(c *Ctx, R3 string) {
 	}
 	pn := FnName(push)
 	ings := c10IngestCalls(push)
-	renames := CallsTo(push, "os.Rename")
+	var renames []ssa.CallInstruction
+	for _, h := range c09ReachableInPkg(push, 2) {
+		if len(ings) == 1 && h == StaticCallee(ings[0]) {
+			continue
+		}
+		renames = append(renames, CallsTo(h, "os.Rename")...)
+	}
 	if len(ings) != 1 || len(renames) == 0 {
 		c.LostAnchor(R3, pn+": ingest helper call / os.Rename")
 		return
 	}
 	ic := ings[0]
 	ingest := StaticCallee(ic)
-	var okEdges []Edge
-	if e := ErrOf(ic); e != nil {
-		okEdges, _, _ = NilTests(push, Aliases(e))
+	ingested := func(fn *ssa.Function, _ c09Vals) []Edge {
+		var out []Edge
+		for _, x := range c10IngestCalls(fn) {
+			if e := ErrOf(x); e != nil {
+				ne, _, _ := NilTests(fn, Aliases(e))
+				out = append(out, ne...)
+			}
+		}
+		return out
 	}
 	tmp := ResultOf(ic, 0)
+	exp := c09DescObjOf(ic.Common().Args[1])
 	for _, rn := range renames {
-		ok := len(okEdges) > 0 && MustPass(rn.(ssa.Instruction), newCut().Edges(okEdges...))
+		ok := c09GuardedUp(c.P, rn.(ssa.Instruction), nil, ingested, 2)
 		c.Check(R3, pn+"|rename-after-successful-ingest", rn.Pos(), ok, ifelse(ok, "os.Rename into blobs/ is reached only on the nil edge of ingest's error", "a file can be renamed into blobs/ although writing/verifying it failed: a truncated or wrong blob becomes visible under its digest name"))
-		ok = tmp != nil && c09SameKey(rn.Common().Args[0], tmp)
+		srcs, okS := c09Origins(c.P, rn.Common().Args[0], 2, push)
+		ok = tmp != nil && okS && len(srcs) > 0
+		for _, sv := range srcs {
+			if tmp == nil || !c09SameKey(sv, tmp) {
+				ok = false
+			}
+		}
 		c.Check(R3, pn+"|rename-source-is-ingest-file", rn.Pos(), ok, ifelse(ok, "the renamed file is the path returned by ingest", "the file renamed into blobs/ is not the verified ingest file"))
 		// destination: blobPath(expected.Digest) of the descriptor handed to ingest
-		exp := c09DescObjOf(ic.Common().Args[1])
-		okDst := false
-		AllInstrs(push, func(in ssa.Instruction) {
-			if call, isCall := in.(*ssa.Call); isCall && len(call.Call.Args) == 1 && exp.fieldOf(call.Call.Args[0], "Digest") && c09Uses(rn.Common().Args[1], call, 0) {
-				okDst = true
+		dsts, okD := c09Origins(c.P, rn.Common().Args[1], 2, push)
+		okDst := okD && len(dsts) > 0
+		for _, dv := range dsts {
+			hit := false
+			AllInstrs(push, func(in ssa.Instruction) {
+				if call, isCall := in.(*ssa.Call); isCall && len(call.Call.Args) == 1 && exp.fieldOf(call.Call.Args[0], "Digest") && c09Uses(dv, call, 0) {
+					hit = true
+				}
+			})
+			if !hit {
+				okDst = false
 			}
-		})
+		}
 		c.Check(R3, pn+"|rename-target-named-by-verified-digest", rn.Pos(), okDst, ifelse(okDst, "the target path is computed from the digest of the descriptor the content was verified against", "the target path does not derive from the digest of the descriptor passed to ingest"))
 	}
 	// ingest: nil only after the verifying copy into the temp file succeeded
 	in := FnName(ingest)
-	copies := CallsTo(ingest, "~/internal/ioutil.CopyBuffer")
 	temps := CallsTo(ingest, "os.CreateTemp")
-	if len(copies) == 0 || len(temps) == 0 {
-		c.LostAnchor(R3, in+": ioutil.CopyBuffer (verifying copy) / os.CreateTemp")
+	if len(temps) == 0 {
+		c.LostAnchor(R3, in+": os.CreateTemp")
 		return
 	}
+	fp := ResultOf(temps[0], 0)
+	// the verifying copy into that file, against the expected descriptor — in ingest or in a helper extracted from it
+	copies := c09EffectSites(ingest, c09Identity, func(call ssa.CallInstruction, bind c09Bind) bool {
+		a := call.Common().Args
+		if CalleeName(call) != "~/internal/ioutil.CopyBuffer" || len(a) != 4 || fp == nil {
+			return false
+		}
+		dst, want := bind(strip(a[0])), bind(a[3])
+		if dst == nil || want == nil || !c09SameKey(dst, fp) {
+			return false
+		}
+		for _, prm := range ingest.Params {
+			if c09DescObjOf(prm).vals[want] {
+				return true
+			}
+		}
+		return false
+	}, 2)
 	var copied []Edge
 	for _, cp := range copies {
-		if e := ErrOf(cp); e != nil {
+		if e := ErrOf(cp.(ssa.CallInstruction)); e != nil {
 			ne, _, _ := NilTests(ingest, Aliases(e))
 			copied = append(copied, ne...)
 		}
@@ -348,24 +495,8 @@ func c10R3StoragePush(c *Ctx, R3 string) {
 			ok = false
 		}
 	}
-	c.Check(R3, in+"|nil-only-after-verified-copy", ingest.Pos(), ok && n > 0 && len(copied) > 0, ifelse(ok && n > 0, "every return with a nil error lies on the nil edge of ioutil.CopyBuffer's (size+digest verifying) error", "ingest can report success although the verifying copy failed or did not run"))
-	fp := ResultOf(temps[0], 0)
-	okW, okP := fp != nil, fp != nil
-	for _, cp := range copies {
-		if fp == nil || !c09SameKey(strip(cp.Common().Args[0]), fp) {
-			okW = false
-		}
-		// verified against the descriptor parameter
-		isParam := false
-		for _, prm := range ingest.Params {
-			if c09DescObjOf(prm).vals[cp.Common().Args[3]] {
-				isParam = true
-			}
-		}
-		if !isParam {
-			okW = false
-		}
-	}
+	c.Check(R3, in+"|nil-only-after-verified-copy", ingest.Pos(), ok && n > 0 && len(copied) > 0, ifelse(ok && n > 0 && len(copied) > 0, "every return with a nil error lies on the nil edge of ioutil.CopyBuffer's (size+digest verifying) error", "ingest can report success although the verifying copy (into the temporary file, against the expected descriptor) failed or did not run"))
+	okW, okP := len(copies) > 0, fp != nil
 	n = 0
 	for _, a := range RetAtoms(ingest, 0) {
 		if s, isConst := constString(a.Val); isConst && s == "" {
@@ -443,6 +574,27 @@ func c10R3StorePushTag(c *Ctx, R3 string, r *c08Roles) {
 				exists = append(exists, te...)
 			}
 		}
+		// … or a helper whose nil error implies exists == true (`if err := s.mustExist(ctx, desc); err != nil { return err }`)
+		for _, hc := range Calls(tag, func(string) bool { return true }) {
+			g := StaticCallee(hc)
+			if _, isCall := hc.(*ssa.Call); !isCall || g == nil || fnPkgPath(g) != pkgPath(c08Pkg) || len(g.Blocks) == 0 || ErrResultIndex(g.Signature) < 0 {
+				continue
+			}
+			var inner []Edge
+			for _, ec := range Calls(g, func(n string) bool { return strings.HasSuffix(n, ").Exists") }) {
+				if b := ResultOf(ec, 0); b != nil {
+					te, _ := BoolTests(g, Aliases(b))
+					inner = append(inner, te...)
+				}
+			}
+			if len(inner) == 0 || !c10NilImplies(g, inner) {
+				continue
+			}
+			if e := ErrOf(hc); e != nil {
+				ne, _, _ := NilTests(tag, Aliases(e))
+				exists = append(exists, ne...)
+			}
+		}
 		ts := tagSites(tag)
 		if len(ts) == 0 {
 			c.LostAnchor(R3, tn+": tag call")
@@ -452,6 +604,33 @@ func c10R3StorePushTag(c *Ctx, R3 string, r *c08Roles) {
 			c.Check(R3, tn+"|exists-before-index-entry", t.Pos(), ok, ifelse(ok, "the descriptor is tagged only on the exists==true edge of storage.Exists", "a descriptor can be tagged (and written to index.json) although its blob is not in the store"))
 		}
 	}
+}
+
+// c10NilImplies: g returns a nil error only on paths through one of the edges.
+func c10NilImplies(g *ssa.Function, edges []Edge) bool {
+	errIdx := ErrResultIndex(g.Signature)
+	if errIdx < 0 {
+		return false
+	}
+	ct := newCut().Edges(edges...)
+	n := 0
+	for _, a := range RetAtoms(g, errIdx) {
+		if ErrNilStatus(a.Val, 0) == NonNil {
+			continue
+		}
+		if _, isZero := a.Val.(zeroMarker); !isZero {
+			if _, isConst := a.Val.(*ssa.Const); !isConst {
+				if _, nonNil, _ := NilTests(g, Aliases(a.Val)); len(nonNil) > 0 && MustPass(a.Ret, newCut().Edges(nonNil...)) {
+					continue
+				}
+			}
+		}
+		n++
+		if !AtomMustPass(a, ct) {
+			return false
+		}
+	}
+	return n > 0
 }
 
 // c10R3DeleteGC: blobs are removed only after the index that no longer names
@@ -490,15 +669,33 @@ func c10R3DeleteGC(c *Ctx, R3 string, r *c08Roles) {
 		}
 		return
 	}
+	isRemoval := func(n string) bool {
+		return n == "os.Remove" || n == "os.RemoveAll" || n == "(*os.Root).Remove" || n == "(*~/content/oci.Storage).Delete"
+	}
+	mutates := func(g *ssa.Function) bool {
+		for _, x := range c09ReachableInPkg(g, 3) {
+			if len(c08Mutations(x, r)) > 0 {
+				return true
+			}
+		}
+		return false
+	}
 	for _, f := range c.P.FuncsOfPkg(c08Pkg) {
-		if ms, _ := mutationsOf(f); f.Signature.Recv() == nil || len(ms) == 0 {
+		if ms, _ := mutationsOf(f); len(ms) == 0 {
 			continue
 		}
 		var rm []ssa.Instruction
-		for _, call := range Calls(f, func(n string) bool {
-			return n == "os.Remove" || n == "os.RemoveAll" || n == "(*~/content/oci.Storage).Delete"
-		}) {
-			if _, isDefer := call.(*ssa.Defer); !isDefer {
+		for _, call := range Calls(f, func(string) bool { return true }) {
+			if _, isDefer := call.(*ssa.Defer); isDefer {
+				continue
+			}
+			if isRemoval(CalleeName(call)) {
+				rm = append(rm, call.(ssa.Instruction))
+				continue
+			}
+			// a helper that only removes (the extracted sweep): the call is the removal
+			if g := StaticCallee(call); g != nil && g != f && fnPkgPath(g) == pkgPath(c08Pkg) && len(g.Blocks) > 0 && !mutates(g) &&
+				reachesCall(g, 3, func(n string, _ ssa.CallInstruction) bool { return isRemoval(n) }) {
 				rm = append(rm, call.(ssa.Instruction))
 			}
 		}
@@ -519,7 +716,7 @@ func c10R3DeleteGC(c *Ctx, R3 string, r *c08Roles) {
 		for _, M := range muts {
 			M := M
 			mkCut := func() *cut {
-				ct := newCut().Edges(off...).Edges(c08InfeasibleAfter(M)...).Edges(savedOn[M]...)
+				ct := newCut().Edges(off...).Edges(c08InfeasibleAfter(M, r)...).Edges(savedOn[M]...)
 				c08SaveSuccessCut(f, r, ct)
 				return ct
 			}
